@@ -1,7 +1,7 @@
 (* C11 - The seed is invariant under Unicode-equivalent spellings. *)
 From B39 Require Import Proofs.Calls.
 From B39 Require Import Lib.Base Lib.Nfkd Model.GenTypes Model.Model Spec.Bip39Spec.
-From B39 Require Import Proofs.LibContract Proofs.Seed Proofs.Api.
+From B39 Require Import Lib.Utf8 Proofs.LibContract Proofs.Seed Proofs.Api Proofs.Idem Proofs.Canonical.
 
 (* any two (mnemonic, passphrase) pairs whose components have equal NFKD forms, inside the domain where
    the library's normaliser is UAX #15 NFKD (xsafe of the second pair follows) *)
@@ -22,5 +22,12 @@ Proof. exact seed_separators. Qed.
 Theorem C11_callees : reach_ok "MnemonicToSeed" = true.
 Proof. exact calls_seed. Qed.
 
+(* in particular the NFKD forms of the arguments give the same seed as the arguments (NFKD is idempotent) *)
+Theorem C11_normalised_form : forall lib, lib_contract lib -> forall (m p : list byte),
+  utf8_valid m = true -> utf8_valid p = true -> xsafe m = true -> xsafe p = true ->
+  MnemonicToSeed lib (nfkd m) (nfkd p) = MnemonicToSeed lib m p.
+Proof. exact normalised_form_same_seed. Qed.
+
 Print Assumptions C11_same_nfkd.
+Print Assumptions C11_normalised_form.
 Print Assumptions C11_separators.
